@@ -1,11 +1,11 @@
 package sym
 
 import (
-	"unicode"
-	"unicode/utf8"
 	"fmt"
 	"go/types"
 	"strings"
+	"unicode"
+	"unicode/utf8"
 
 	"golang.org/x/tools/go/ssa"
 
@@ -18,57 +18,65 @@ var intrinsics map[string]intrinsic
 
 func init() {
 	intrinsics = map[string]intrinsic{
-		"bytes.NewBuffer":              inNewBuffer,
-		"bytes.NewReader":              inNewReader,
-		"(*bytes.Buffer).Len":          inBufLen,
-		"(*bytes.Buffer).Bytes":        inBufBytes,
-		"(*bytes.Buffer).String":       inBufString,
-		"(*bytes.Buffer).Next":         inBufNext,
-		"(*bytes.Buffer).Write":        inBufWrite,
-		"(*bytes.Buffer).WriteByte":    inBufWriteByte,
-		"(*bytes.Buffer).WriteString":  inBufWriteString,
-		"(*bytes.Buffer).ReadByte":     inBufReadByte,
-		"(*bytes.Buffer).Read":         inBufRead,
-		"(*bytes.Buffer).ReadFrom":     inBufReadFrom,
-		"(*bytes.Buffer).Reset":        inBufReset,
-		"(*bytes.Reader).Read":         inBufRead,
-		"(*bytes.Reader).Len":          inBufLen,
-		"encoding/binary.Read":         inBinaryRead,
-		"encoding/binary.Write":        inBinaryWrite,
-		"fmt.Errorf":                   inErrorf,
-		"errors.New":                   inErrorsNew,
-		"fmt.Sprintf":                  inSprintf,
-		"fmt.Sprint":                   inSprint,
-		"fmt.Println":                  inNop,
-		"fmt.Printf":                   inNop,
-		"fmt.Print":                    inNop,
-		"log.Printf":                   inNop,
-		"log.Println":                  inNop,
-		"reflect.DeepEqual":            inDeepEqual,
-		"internal/stringslite.Clone":   inIdentity,
-		"strings.Clone":                inIdentity,
-		"strconv.cloneString":          inIdentity,
+		"bytes.NewBuffer":                  inNewBuffer,
+		"bytes.NewReader":                  inNewReader,
+		"(*bytes.Buffer).Len":              inBufLen,
+		"(*bytes.Buffer).Bytes":            inBufBytes,
+		"(*bytes.Buffer).String":           inBufString,
+		"(*bytes.Buffer).Next":             inBufNext,
+		"(*bytes.Buffer).Write":            inBufWrite,
+		"(*bytes.Buffer).WriteByte":        inBufWriteByte,
+		"(*bytes.Buffer).WriteString":      inBufWriteString,
+		"(*bytes.Buffer).ReadByte":         inBufReadByte,
+		"(*bytes.Buffer).Read":             inBufRead,
+		"(*bytes.Buffer).ReadFrom":         inBufReadFrom,
+		"(*bytes.Buffer).Reset":            inBufReset,
+		"(*bytes.Reader).Read":             inBufRead,
+		"(*bytes.Reader).Len":              inBufLen,
+		"encoding/binary.Read":             inBinaryRead,
+		"encoding/binary.Write":            inBinaryWrite,
+		"fmt.Errorf":                       inErrorf,
+		"errors.New":                       inErrorsNew,
+		"fmt.Sprintf":                      inSprintf,
+		"fmt.Sprint":                       inSprint,
+		"fmt.Println":                      inNop,
+		"fmt.Printf":                       inNop,
+		"fmt.Print":                        inNop,
+		"log.Printf":                       inNop,
+		"log.Println":                      inNop,
+		"reflect.DeepEqual":                inDeepEqual,
+		"internal/stringslite.Clone":       inIdentity,
+		"strings.Clone":                    inIdentity,
+		"strconv.cloneString":              inIdentity,
 		"internal/bytealg.IndexByteString": inIndexByteString,
 		"internal/bytealg.IndexByte":       inIndexByte,
 		"internal/bytealg.CountString":     inCountString,
 		"internal/bytealg.Equal":           inBytesEqual,
-		"bytes.Equal":                  inBytesEqual,
-		"strings.Index":                inStringsIndex,
-		"strings.LastIndex":            inStringsLastIndex,
-		"strings.IndexByte":            inIndexByteString,
-		"strings.Contains":             inStringsContains,
-		"strings.Split":                inStringsSplit,
-		"strings.Join":                 inStringsJoin,
-		"strings.Repeat":               inStringsRepeat,
-		"crypto/subtle.XORBytes":       inXORBytes,
-		"github.com/aead/cmac.xor":     inCmacXor,
-		"crypto/aes.NewCipher":         inAesNewCipher,
-		"crypto/cipher.NewCTR":         inNewCTR,
-		"runtime.KeepAlive":            inNop,
-		"strings.ToLower":              inStringsToLower,
-		"strings.ToUpper":              inStringsToUpper,
-		"(*sync.Pool).Get":             inPoolGet,
-		"(*sync.Pool).Put":             inPoolPut,
+		"bytes.Equal":                      inBytesEqual,
+		"strings.Index":                    inStringsIndex,
+		"strings.LastIndex":                inStringsLastIndex,
+		"strings.IndexByte":                inIndexByteString,
+		"strings.Contains":                 inStringsContains,
+		"strings.Split":                    inStringsSplit,
+		"strings.Join":                     inStringsJoin,
+		"strings.Repeat":                   inStringsRepeat,
+		"crypto/subtle.XORBytes":           inXORBytes,
+		"github.com/aead/cmac.xor":         inCmacXor,
+		"crypto/aes.NewCipher":             inAesNewCipher,
+		"crypto/cipher.NewCTR":             inNewCTR,
+		"runtime.KeepAlive":                inNop,
+		"strings.ToLower":                  inStringsToLower,
+		"strings.ToUpper":                  inStringsToUpper,
+		"(*sync.Pool).Get":                 inPoolGet,
+		"(*sync.Pool).Put":                 inPoolPut,
+		// locks: the executor runs one goroutine, so acquiring and releasing are no-ops (what they protect is C19's subject:
+		// the global-state scan reports the package-level state behind them)
+		"(*sync.Mutex).Lock":      inNop,
+		"(*sync.Mutex).Unlock":    inNop,
+		"(*sync.RWMutex).Lock":    inNop,
+		"(*sync.RWMutex).Unlock":  inNop,
+		"(*sync.RWMutex).RLock":   inNop,
+		"(*sync.RWMutex).RUnlock": inNop,
 	}
 }
 
@@ -133,8 +141,12 @@ func (ex *Exec) globalIntrinsic(g *ssa.Global) (Value, bool) {
 	return nil, false
 }
 
-func (ex *Exec) errEOFv() Value  { return Iface{T: errType, V: Opaque{Kind: "error", Msg: "EOF", ID: 1}} }
-func (ex *Exec) errUEOFv() Value { return Iface{T: errType, V: Opaque{Kind: "error", Msg: "unexpected EOF", ID: 2}} }
+func (ex *Exec) errEOFv() Value {
+	return Iface{T: errType, V: Opaque{Kind: "error", Msg: "EOF", ID: 1}}
+}
+func (ex *Exec) errUEOFv() Value {
+	return Iface{T: errType, V: Opaque{Kind: "error", Msg: "unexpected EOF", ID: 2}}
+}
 
 func inErrorf(ex *Exec, fn *ssa.Function, args []Value, site string) Value {
 	msg := "?"
